@@ -137,8 +137,15 @@ func (w *randomWorkload) Next(block int) []rig.Tx {
 		// two more bindings, one of which is disabled in the next block: the provider of an oracle-seeded request is
 		// drawn among several bindings of which not all are available
 		// (they promise an answer within the longest time a binding may name: the service's maximum request timeout)
-		for _, p := range w.extraProvs {
-			txs = append(txs, r.Mk(p, &rndTag{Kind: "setup"}, svcBind(p, servicetypes.RandomServiceName, "2stake", 100000, uint64(r.K.Service.GetParams(r.Ctx()).MaxRequestTimeout))))
+		// (the second of them is bound by another account as its owner: provider and owner are two parties)
+		for i, p := range w.extraProvs {
+			m := svcBind(p, servicetypes.RandomServiceName, "2stake", 100000, uint64(r.K.Service.GetParams(r.Ctx()).MaxRequestTimeout))
+			signer := p
+			if i == 1 && len(r.Accounts) >= 6 {
+				signer = r.Acc(5)
+				m.(*servicetypes.MsgBindService).Owner = signer.Addr.String()
+			}
+			txs = append(txs, r.Mk(signer, &rndTag{Kind: "setup"}, m))
 		}
 		// two other services whose names begin with the random service's name, with providers of their own (below)
 		if len(r.Accounts) >= 6 {
